@@ -560,7 +560,11 @@ def run(ctx):
                 "address. (2) stress: 6-12 free-running processes of all flavours x 2-4 threads/tasks on 2-3 keys and 2-3 "
                 "addresses with unique values; per key a register history and per address a presence history are checked "
                 "for linearizability (WGL search, 5 s budget, timeout = inconclusive); conservation of records. (3) thorough: "
-                "ThreadSanitizer on the in-process workload. distinct = distinct (pair, mode, interleaving of scheduling "
+                "ThreadSanitizer on the in-process workload. (4) overlapping writers of one process (cv/interleave.py): "
+                "2-3 writer handles (same/different key and data, declared options, sync and async) advanced in a random "
+                "merge of their open/chunk/commit|drop steps; every step must succeed, every commit must return the "
+                "data's address (or be rejected iff its declaration is wrong), and after every commit/drop each key "
+                "must resolve to the data of its LAST successful commit and every committed address must read back. distinct = distinct (pair, mode, interleaving of scheduling "
                 "points) + stress rounds")
     ctx.assumptions = ["clear and remove_fully are excluded by the property", "processes only; scheduling at system-call "
                        "granularity (memory-level races are the TSan part)", "index records are far below tokio's 2 MiB buffer"]
@@ -597,6 +601,10 @@ def run(ctx):
     for rnd in range(rounds):
         stress_round(ctx, rnd, nproc=ctx.rng.randint(6, 12), per_prog=25 if ctx.quick else 40, modes=drv.ALL_MODES)
     ctx.count("stress_rounds", rounds)
+    # overlapping writers inside one process, advanced step by step: the serial order is the order of the commits
+    from .. import interleave
+    interleave.run(ctx, drv.QUICK_MODES if ctx.quick else drv.ALL_MODES, 1500 if ctx.quick else 20000,
+                   content_monitor=False, results_monitor=True, big=not ctx.quick)
     if not ctx.quick:
         tsan_run(ctx)
     else:
